@@ -90,13 +90,14 @@ def l_hdr(F, R):
     R.check((it.written - want).is_zero(), "L-hdr", "bytes",
             "encode_packet emits %s bytes; a packet is 1 + varint(remaining) + remaining = %s" % (it.written, want), where=fid)
     kinds = [t[0] for t in it.trace if t[0] != "debug_assert"]
+    kinds = ["varint" if k == "item" else k for k in kinds]
     R.check(kinds == ["total_len", "push", "varint", "enc"], "L-hdr", "order",
             "encode_packet performs %s; expected total_len check, control byte, remaining length, body" % kinds, where=fid)
     tl = [t for t in it.trace if t[0] == "total_len"]
-    vi = [t for t in it.trace if t[0] == "varint"]
-    R.check(len(tl) == 1 and len(vi) == 1 and tl[0][1] == vi[0][1] == repr(body_len), "L-hdr", "same-length",
+    vi = [t for t in it.trace if t[0] == "item" and t[1] == "write_var_int"]
+    R.check(len(tl) == 1 and len(vi) == 1 and tl[0][1] == vi[0][4] == repr(body_len), "L-hdr", "same-length",
             "the length checked by total_len (%s), the length written (%s) and body.encode_len() differ" % (
-                tl[0][1] if tl else None, vi[0][1] if vi else None), where=fid)
+                tl[0][1] if tl else None, vi[0][4] if vi else None), where=fid)
     pushes = [t for t in it.trace if t[0] == "push"]
     R.check(len(pushes) == 1 and pushes[0][1] == "control_byte", "L-hdr", "control-byte",
             "encode_packet pushes %s" % [p[1] for p in pushes], where=fid)
